@@ -183,7 +183,25 @@ fn part_b(acc: &mut Acc, tier: Tier) -> usize {
     let n_flags = flags.len();
     let hdrs = ["x-amz-copy-source", "x-amz-request-route", "x-amz-request-token"];
     let methods = ["GET", "HEAD", "PUT", "POST", "DELETE", "OPTIONS", "PATCH", "FOO"];
-    let kinds = [(Kind::Root, "/"), (Kind::Bucket, "/bkt"), (Kind::Object, "/bkt/k"), (Kind::WriteGetObjectResponse, "/WriteGetObjectResponse")];
+    // (path kind, path as sent, Host, host parser): both addressing styles, and object keys that end in or consist of slashes
+    let vh = || HostMode::Single(sdk::SDK_DOMAIN.to_owned());
+    let vhost = "bkt.s3.example.com";
+    let kinds: Vec<(Kind, &str, &str, HostMode)> = vec![
+        (Kind::Root, "/", "s3.example.com", HostMode::None),
+        (Kind::Bucket, "/bkt", "s3.example.com", HostMode::None),
+        (Kind::Object, "/bkt/k", "s3.example.com", HostMode::None),
+        (Kind::WriteGetObjectResponse, "/WriteGetObjectResponse", "s3.example.com", HostMode::None),
+        (Kind::Bucket, "/bkt/", "s3.example.com", HostMode::None),
+        (Kind::Object, "/bkt//", "s3.example.com", HostMode::None),
+        (Kind::Object, "/bkt/d/", "s3.example.com", HostMode::None),
+        (Kind::Root, "/", "s3.example.com", vh()),
+        (Kind::Object, "/bkt/k", "s3.example.com", vh()),
+        (Kind::Bucket, "/", vhost, vh()),
+        (Kind::Object, "/k", vhost, vh()),
+        (Kind::Object, "//", vhost, vh()),
+        (Kind::Object, "///", vhost, vh()),
+        (Kind::Object, "/d/", vhost, vh()),
+    ];
     let max = tier.pick(2, 3);
     // subsets of flags up to size max, as index lists
     let mut subsets: Vec<Vec<usize>> = vec![vec![]];
@@ -208,10 +226,11 @@ fn part_b(acc: &mut Acc, tier: Tier) -> usize {
         let query: Vec<(String, String)> = sub.iter().map(|i| flags[*i].clone()).collect();
         let qs = query.iter().map(|(n, v)| if v.is_empty() { n.clone() } else { format!("{n}={v}") }).collect::<Vec<_>>().join("&");
         for method in methods {
-            for (kind, path) in kinds {
+            for (kind, path, host, parser) in &kinds {
+                let (kind, path) = (*kind, *path);
                 for hmask in 0..8u8 {
                     let headers: BTreeSet<String> = hdrs.iter().enumerate().filter(|(i, _)| hmask & (1 << i) != 0).map(|(_, h)| (*h).to_owned()).collect();
-                    let id = || format!("raw/{method} {path}?{qs} [{}]", headers.iter().cloned().collect::<Vec<_>>().join(","));
+                    let id = || format!("raw/{method} {host}{path}?{qs} [{}]{}", headers.iter().cloned().collect::<Vec<_>>().join(","), if *parser == HostMode::None { "" } else { " vh" });
                     if !a.selected(&id) {
                         continue;
                     }
@@ -232,12 +251,12 @@ fn part_b(acc: &mut Acc, tier: Tier) -> usize {
                         }
                     }
                     let target = if qs.is_empty() { path.to_owned() } else { format!("{path}?{qs}") };
-                    let mut req = Req::new(method, &target).header("host", "s3.example.com");
+                    let mut req = Req::new(method, &target).header("host", host);
                     for h in &headers {
                         req = req.header(h, if h == "x-amz-copy-source" { "src-bkt/k" } else { "t" });
                     }
                     // the resolved route is observed at the access hook, which runs before the input is decoded
-                    let cfg = SvcCfg { keys: Some(vec![(AK.into(), SK.into())]), access: AccessMode::Allow, ..Default::default() };
+                    let cfg = SvcCfg { keys: Some(vec![(AK.into(), SK.into())]), access: AccessMode::Allow, host: parser.clone(), ..Default::default() };
                     let (svc, log) = cfg.build();
                     let out = call(&svc, &req, body_one_frame(b""));
                     let evs = log.lock().unwrap().clone();
@@ -294,7 +313,7 @@ pub fn run(ctx: &Ctx) -> (Acc, Report) {
     let max = ctx.tier.pick(2, 3);
     let rep = Report {
         level: "exploration",
-        rule: format!("(a) 96 operations: the request aws-sdk-s3 encodes for base() and for every single deviation of every query- or header-bound member (thorough: also all pairs of 'member present'), under 5 combinations of addressing style x host parser {{path/none, path/single, path/multi(2), virtual-hosted/single, virtual-hosted/multi(2)}}: the recording backend logs exactly that operation. (b) full product of 8 methods x 4 path kinds (root, bucket, object, /WriteGetObjectResponse) x every subset of size <= {max} of {n_flags} query flags/members (every literal query item and query-bound member of the model, plus list-type=1 and select-type=1) x every subset of the 3 discriminating headers; the resolved route is observed at the access hook and compared with the reference router R1 (most-specific match over the Smithy http traits). Distinct by id."),
+        rule: format!("(a) 96 operations: the request aws-sdk-s3 encodes for base() and for every single deviation of every query- or header-bound member (thorough: also all pairs of 'member present'), under 5 combinations of addressing style x host parser {{path/none, path/single, path/multi(2), virtual-hosted/single, virtual-hosted/multi(2)}}: the recording backend logs exactly that operation. (b) full product of 8 methods x 14 addressed paths (root, bucket, object incl. keys ending in or consisting of slashes, /WriteGetObjectResponse; path-style and virtual-hosted-style under a host parser) x every subset of size <= {max} of {n_flags} query flags/members (every literal query item and query-bound member of the model, plus list-type=1 and select-type=1) x every subset of the 3 discriminating headers; the resolved route is observed at the access hook and compared with the reference router R1 (most-specific match over the Smithy http traits). Distinct by id."),
         exhaustive: true,
         extra: json!({"query_flags": n_flags}),
         assumptions: vec!["R1 is derived from data/s3.json only; requests for which its most-specific match is not unique are counted and skipped".into(), "CreateSession and ListDirectoryBuckets are deliberately absent from the S3 trait and outside the universe".into()],
